@@ -17,6 +17,17 @@ class Inconclusive(Exception):
     """The deciding monitor could not be reached / a patch point is not effective."""
 
 
+# everything lomond needs from elsewhere is imported first, so that the optional factory patch below
+# only affects locks created by lomond's own modules at import time
+import base64, collections, functools, hashlib, json, logging, math, platform, random, select, socket, ssl, struct, threading, time, zlib  # noqa
+import six  # noqa
+import six.moves.urllib.parse  # noqa
+
+_SCHED_IMPORT = os.environ.get('VF_SCHED_IMPORT') == '1'
+if _SCHED_IMPORT:
+    from .schedlock import patched_threading_factories as _ptf
+    _patch = _ptf()
+    _patch.__enter__()
 try:
     import lomond  # noqa
     import lomond.session
@@ -38,7 +49,11 @@ try:
     import lomond.status
     import lomond.opcode
 except Exception as _e:  # pragma: no cover
+    if _SCHED_IMPORT:
+        _patch.__exit__(None, None, None)
     raise Inconclusive('cannot import lomond from %s: %r' % (LOMOND_SRC, _e))
+if _SCHED_IMPORT:
+    _patch.__exit__(None, None, None)
 
 _real = os.path.realpath(lomond.__file__)
 if not _real.startswith(LOMOND_SRC + os.sep):
